@@ -65,9 +65,9 @@ theorem absv_nonneg (x : ℝ) : 0 ≤ Binning.absv x := by
   · rw [if_pos h]; linarith
   · rw [if_neg h]; exact not_lt.1 h
 
-/-- the clip margin (largest mid-point bin width of the request) is never negative -/
-theorem clipMargin_nonneg (wn : List ℝ) : 0 ≤ clipMargin wn := by
-  unfold clipMargin Binning.computeBinEdges
+/-- the widest mid-point bin of the request is never negative -/
+theorem widestBin_nonneg (wn : List ℝ) : 0 ≤ widestBin wn := by
+  unfold widestBin Binning.computeBinEdges
   simp only
   set edges := (wn.getD 0 0 - (wn.getD 1 0 - wn.getD 0 0) / 2) ::
     (Binning.midEdges wn ++ [(wn.getD (wn.length - 1) 0 - wn.getD (wn.length - 2) 0) / 2 + wn.getD (wn.length - 1) 0])
@@ -81,6 +81,14 @@ theorem clipMargin_nonneg (wn : List ℝ) : 0 ≤ clipMargin wn := by
   simp only [Binning.diffs, List.map_cons]
   refine le_trans (absv_nonneg (b - a)) (maxL_ge _ _ ?_)
   simp
+
+/-- the clip margin (5/4 of the widest mid-point bin width of the request) is never negative -/
+theorem clipMargin_nonneg (wn : List ℝ) : 0 ≤ clipMargin wn := by
+  unfold clipMargin
+  have := widestBin_nonneg wn
+  linarith
+
+theorem clipMarginPinned_nonneg (wn : List ℝ) : 0 ≤ clipMarginPinned wn := widestBin_nonneg wn
 
 /-- `np.array_equal` on real lists is equality -/
 theorem eqL_iff (a b : List ℝ) : eqL a b = true ↔ a = b := by
